@@ -1,7 +1,3 @@
-From Verif Require Import Base.Common Base.Sweep Gen.CryptTab Model.C02.
-From Verif Require Model.C02_Frozen.
-
-Lemma tables_frozen :
-  con_salt = C02_Frozen.con_salt /\ cov_2char = C02_Frozen.cov_2char /\ shifts2 = C02_Frozen.shifts2 /\
-  skb = C02_Frozen.skb /\ SPtrans = C02_Frozen.SPtrans.
-Proof. repeat split; vm_compute; reflexivity. Qed.
+(* C02 — all lemmas: Core (structure, shape, key locality, generate-then-verify), Tables (FIPS derivations),
+   Spec (what is proved about equality with textbook crypt(3)). *)
+From Verif Require Export Proofs.C02_Core Proofs.C02_Tables Proofs.C02_Spec.
